@@ -275,7 +275,7 @@ func (a *Act) makeSlice(st *State, elem types.Type, ln, cp string, hint string) 
 
 // elemLoc is the location of s[i].
 func (a *Act) elemLoc(s Val, i string, elem types.Type) *Loc {
-	return &Loc{Kind: "elem", Base: sArr(s.Term), Idx: app("at", sOff(s.Term), i), Root: "E:" + typeName(elem), Owner: elem, T: elem}
+	return &Loc{Kind: "elem", Base: sArr(s.Term), Idx: add(sOff(s.Term), i), Root: "E:" + typeName(elem), Owner: elem, T: elem}
 }
 
 // rowTerm returns the row (Array Int τ) holding the leaves of slice s for a scalar element type.
@@ -314,6 +314,25 @@ func (a *Act) appendSlice(st *State, s Val, t Val, elem types.Type, pos string) 
 	ls := vc.define("app_len", SortInt, sLen(s.Term))
 	newLen := vc.define("app_nl", SortInt, add(ls, n))
 	fits := vc.define("app_fits", SortBool, app("<=", newLen, sCap(s.Term)))
+	if !a.dry && vc.proveNow(st.reach, fits) {
+		// the append provably stays within the backing array: in-place only
+		res := vc.define("app_res", SortSlice, mkSlice(sArr(s.Term), sOff(s.Term), newLen, sCap(s.Term)))
+		for _, ec := range a.elemComps(elem) {
+			cs := arrSort(arrSort(ec.S))
+			rs := arrSort(ec.S)
+			cur := vc.comp(st.mem, ec.C, cs)
+			srow := sel(cur, sArr(s.Term))
+			trow := sel(cur, sArr(t.Term))
+			ip := vc.declare("app_iprow", rs)
+			j := "j!q"
+			dst0 := add(sOff(s.Term), ls)
+			vc.assume(st.reach, fmt.Sprintf("(forall ((%s Int)) (! (= (select %s %s) (ite (and (<= %s %s) (< %s %s)) (select %s (+ %s (- %s %s))) (select %s %s))) :pattern ((select %s %s))))",
+				j, ip, j, dst0, j, j, add(dst0, n), trow, sOff(t.Term), j, dst0, srow, j, ip, j))
+			a.frameCheckRefCond(st, ec.C, sArr(s.Term), app(">", n, "0"), pos)
+			vc.setComp(st.mem, ec.C, cs, sto(cur, sArr(s.Term), ip))
+		}
+		return Val{Sort: SortSlice, T: s.T, Term: res}
+	}
 	// fresh backing array for the reallocating case
 	pre := st.mem.clone()
 	nr := a.newRef(st, "app_arr")
@@ -332,7 +351,7 @@ func (a *Act) appendSlice(st *State, s Val, t Val, elem types.Type, pos string) 
 		// in-place row
 		ip := vc.declare("app_iprow", rs)
 		j := "j!q"
-		dst0 := app("at", sOff(s.Term), ls)
+		dst0 := add(sOff(s.Term), ls)
 		vc.assume(st.reach, fmt.Sprintf("(forall ((%s Int)) (! (= (select %s %s) (ite (and (<= %s %s) (< %s %s)) (select %s (+ %s (- %s %s))) (select %s %s))) :pattern ((select %s %s))))",
 			j, ip, j, dst0, j, j, add(dst0, n), trow, sOff(t.Term), j, dst0, srow, j, ip, j))
 		// reallocated row
@@ -387,7 +406,7 @@ func (a *Act) appendOne(st *State, s Val, v Val, elem types.Type, pos string) Va
 		rs := arrSort(ec.S)
 		cur := vc.comp(pre, ec.C, cs)
 		srow := sel(cur, sArr(s.Term))
-		ip := sto(srow, app("at", sOff(s.Term), ls), flat[i].Term)
+		ip := sto(srow, add(sOff(s.Term), ls), flat[i].Term)
 		rr := vc.declare("app_rrow", rs)
 		j := "j!q"
 		vc.assume(st.reach, fmt.Sprintf("(forall ((%s Int)) (! (= (select %s %s) (ite (and (<= 0 %s) (< %s %s)) (select %s (+ %s %s)) (ite (= %s %s) %s %s))) :pattern ((select %s %s))))",
